@@ -222,13 +222,49 @@ pub fn find_real(sc: &FindScenario, ctx: &mut Ctx, bins: &Path, sub: &str, cmd_t
             argv.push(a.clone());
         }
     }
+    // a list of starting points may also arrive on the real standard input (`-files0-from -`),
+    // written by its producer in pieces with pauses in between: every name must still count
+    let list_on_stdin = match sc.starts_file_content() {
+        Some(list) if (list.len() + argv.len()) % 2 == 0 && list.len() >= 2 => Some(list),
+        _ => None,
+    };
+    if list_on_stdin.is_some() {
+        for a in argv.iter_mut() {
+            if a == crate::find::STARTS_FILE {
+                *a = "-".into();
+            }
+        }
+    }
     let mut c = Command::new(bins.join("find"));
-    c.args(&argv).current_dir(&root).stdin(Stdio::null()).stdout(Stdio::piped()).stderr(Stdio::piped());
+    c.args(&argv).current_dir(&root).stdout(Stdio::piped()).stderr(Stdio::piped());
+    c.stdin(if list_on_stdin.is_some() { Stdio::piped() } else { Stdio::null() });
     base_env(&mut c, ctx);
     for (k, v) in &sc.ambient.env {
         c.env(k, v);
     }
-    let out = c.output().map_err(|e| format!("cannot start {}: {e}", bins.join("find").display()))?;
+    let mut child = c.spawn().map_err(|e| format!("cannot start {}: {e}", bins.join("find").display()))?;
+    let writer = list_on_stdin.map(|list| {
+        let mut stdin = child.stdin.take().unwrap();
+        std::thread::spawn(move || {
+            // after the first name, and once more in the middle of the rest
+            let first = list.iter().position(|b| *b == 0).map(|p| p + 1).unwrap_or(list.len()).min(list.len());
+            let mid = first + (list.len() - first) / 2;
+            for piece in [&list[..first], &list[first..mid], &list[mid..]] {
+                if piece.is_empty() {
+                    continue;
+                }
+                if stdin.write_all(piece).is_err() {
+                    return;
+                }
+                let _ = stdin.flush();
+                std::thread::sleep(std::time::Duration::from_millis(25));
+            }
+        })
+    });
+    let out = child.wait_with_output().map_err(|e| format!("waiting for find: {e}"))?;
+    if let Some(w) = writer {
+        let _ = w.join();
+    }
     let children = parse_child_log(&std::fs::read(&lp).unwrap_or_default());
     Ok(FindReal {
         status: status_of(out.status),
